@@ -23,6 +23,12 @@ pub mod lock {
             pub use ::std::hint::*;
             pub use shuttle::hint::spin_loop;
         }
+        // the clock is the simulator's: a lock that measures how long it was held must see
+        // simulated time (one seed, one execution), not the wall clock of a loaded machine
+        pub mod time {
+            pub use ::std::time::*;
+            pub use crate::simclock::Instant;
+        }
         // thread-local storage must be per *simulated* thread
         pub use shuttle::thread_local;
     }
@@ -42,6 +48,67 @@ pub mod lock {
         }
     }
     include!(concat!(env!("OUT_DIR"), "/lock_under_shuttle.rs"));
+}
+
+/// Simulated time for the lock under test: advanced only by the harness (every scheduling
+/// point inside or outside a closure is worth 10 microseconds, so the long closures of the
+/// scenarios hold the lock for tens of milliseconds).
+pub mod simclock {
+    use std::cell::Cell;
+    use std::ops::{Add, Sub};
+    use std::time::Duration;
+    thread_local! {
+        static NOW_NS: Cell<u64> = const { Cell::new(1_000_000_000) };
+    }
+    pub fn reset() {
+        NOW_NS.with(|c| c.set(1_000_000_000));
+    }
+    pub fn advance(ns: u64) {
+        NOW_NS.with(|c| c.set(c.get().saturating_add(ns)));
+    }
+    #[derive(Clone, Copy, Debug, PartialEq, Eq, PartialOrd, Ord, Hash)]
+    pub struct Instant(u64);
+    impl Instant {
+        pub fn now() -> Instant {
+            Instant(NOW_NS.with(|c| c.get()))
+        }
+        pub fn elapsed(&self) -> Duration {
+            Instant::now().duration_since(*self)
+        }
+        pub fn duration_since(&self, earlier: Instant) -> Duration {
+            Duration::from_nanos(self.0.saturating_sub(earlier.0))
+        }
+        pub fn saturating_duration_since(&self, earlier: Instant) -> Duration {
+            self.duration_since(earlier)
+        }
+        pub fn checked_duration_since(&self, earlier: Instant) -> Option<Duration> {
+            self.0.checked_sub(earlier.0).map(Duration::from_nanos)
+        }
+        pub fn checked_add(&self, d: Duration) -> Option<Instant> {
+            self.0.checked_add(d.as_nanos() as u64).map(Instant)
+        }
+        pub fn checked_sub(&self, d: Duration) -> Option<Instant> {
+            self.0.checked_sub(d.as_nanos() as u64).map(Instant)
+        }
+    }
+    impl Add<Duration> for Instant {
+        type Output = Instant;
+        fn add(self, d: Duration) -> Instant {
+            Instant(self.0.saturating_add(d.as_nanos() as u64))
+        }
+    }
+    impl Sub<Duration> for Instant {
+        type Output = Instant;
+        fn sub(self, d: Duration) -> Instant {
+            Instant(self.0.saturating_sub(d.as_nanos() as u64))
+        }
+    }
+    impl Sub<Instant> for Instant {
+        type Output = Duration;
+        fn sub(self, o: Instant) -> Duration {
+            self.duration_since(o)
+        }
+    }
 }
 
 pub mod c20;
